@@ -58,6 +58,10 @@ def generate_with_relative_time_(
 
             if has_result:
                 observer.on_next(result)
+                if mad.is_disposed:
+                    # unsubscribed from inside on_next: the user's functions are
+                    # not run for a subscriber that is gone
+                    return
 
             try:
                 if first:
